@@ -127,7 +127,7 @@ CHECKS = {
         "exploration",
         "reference-model monitor of the real resource-tracker process: seeded request scripts from 1-3 real client processes (loky ResourceTracker API on an inherited pipe), sentinel-based synchronisation after every request, disk state compared with a ref-count registry; clients exit or are SIGKILLed at seeded positions",
         "The tracker's main() runs as a real process fed by a pipe whose write end is inherited by 1-3 client processes; scripts of REGISTER / MAYBE_UNLINK / UNREGISTER over files, folders and files inside tracked folders are salted with malformed lines (garbage, non-ASCII, unknown type or command, decrement / unregister of unknown names) and client exits or SIGKILLs. After every request a sentinel proves the tracker has processed it; then every tracked path, folder and decoy must exist exactly when the ref-count model says so, the tracker must still be alive, and after the last descriptor is closed it must exit 0 having deleted exactly what was still registered.",
-        "FIFO pipe + sequential tracker loop justify the sentinel; a file inside a folder whose own count reaches zero disappears with the folder (modelled); a second layer runs the tracker through joblib itself: a loky Parallel call with automatically memmapped arguments whose parent exits or is SIGKILLed during / between / after calls; once the parent and every worker are gone the memmapping folder must be gone.",
+        "FIFO pipe + sequential tracker loop justify the sentinel; a file inside a folder whose own count reaches zero disappears with the folder (modelled); a second layer runs the tracker through joblib itself: a loky Parallel call with automatically memmapped arguments whose parent exits or is SIGKILLed during / between / after calls; once the parent and every worker are gone the memmapping folder must be gone; a third layer ends the client the way a terminal or killall does: its whole process group, the tracker (started by the real ensure_running()) included, receives SIGINT / SIGTERM 0-300 ms after the registrations, and what was registered must be deleted.",
         "3/C20", "harness"),
 }
 
